@@ -101,14 +101,27 @@ def _kind(rep):
   return "fixed"
 
 
+def unit_kind(rep):
+  """fp16 / fp32 / fixed / po2 / binary / ternary (labels only)."""
+  k = _kind(rep)
+  return "fp%d" % int(rep["bits"]) if k == "float" else k
+
+
 def multiplier_cost(op_type, w_rep, x_rep, out_rep):
   """gate_factor * per-op energy of ONE multiplication, or None when the
   combination is not modelled here (not-inference mode: no per-value shifter
   tables)."""
   kw, kx = _kind(w_rep), _kind(x_rep)
   if op_type == "mul":
-    if kw == "float" or kx == "float" or _is_float(out_rep):
+    if _is_float(out_rep):
       return FP_MUL.get(int(out_rep["bits"]))
+    if kw == "float" or kx == "float":
+      # floating-point operand(s) but a fixed-point product type (QTools
+      # options keras_quantizer=fp*, keras_accumulator=int*): the multiplier
+      # width is that of the widest floating-point operand (documented in
+      # FloatingPointMultiplier), costed in the unit of the product type
+      b = max(int(r["bits"]) for r, k in ((w_rep, kw), (x_rep, kx)) if k == "float")
+      return 1.0 * _pos(_poly(FPM_MUL, b))
     if kw == "fixed" and kx == "fixed":
       b = math.sqrt(x_rep["bits"] * w_rep["bits"])
       return 1.0 * _pos(_poly(FPM_MUL, b))
@@ -142,13 +155,33 @@ def mac_op_cost(count, mult_cost, acc_rep):
   return count * (mult_cost + add_cost(acc_rep))
 
 
-def merge_op_cost(kind, count, n_inputs, merge_rep, in_reps):
+def auto_add_bits(in_reps):
+  """Width of the adder that merge_factory.Add derives from its input types:
+  widest floating-point input, else widest fixed-point input + 1 carry bit
+  (None: not restated, e.g. power-of-two inputs)."""
+  kinds = [_kind(r) for r in in_reps]
+  if "float" in kinds:
+    return max(int(r["bits"]) for r, k in zip(in_reps, kinds) if k == "float")
+  if all(k == "fixed" for k in kinds):
+    return max(int(r["bits"]) for r in in_reps) + 1
+  return None
+
+
+def merge_op_cost(kind, count, n_inputs, merge_rep, in_reps, reference=False):
   """Add/Subtract: (n-1) element-wise adds in the output type.
-  Multiply: (n-1) multiplications (only the last pair defines the gate)."""
+  Multiply: (n-1) multiplications (only the last pair defines the gate).
+  reference=True (QTools for_reference): the reported merge type is the forced
+  reference type; the adder width documented for that mode stays the one
+  derived from the inputs, the unit (float / fixed) is that of the forced type."""
   if kind == "Add":
     if _is_float(merge_rep):
       return (n_inputs - 1) * count * FP_ADD[int(merge_rep["bits"])]
-    return (n_inputs - 1) * count * _pos(_poly(FPM_ADD, merge_rep["bits"]))
+    bits = merge_rep["bits"]
+    if reference:
+      bits = auto_add_bits(in_reps)
+      if bits is None:
+        return None
+    return (n_inputs - 1) * count * _pos(_poly(FPM_ADD, bits))
   if kind == "Multiply":
     if n_inputs != 2:
       return None
